@@ -233,7 +233,7 @@ def build_value(v, rng, name, stmts):
     if not isinstance(v, (list, dict)):
         return A.lit(v)
     how = rng.randrange(6)
-    if how == 5 and isinstance(v, list) and len(v) >= 2 and v[0] == v[1] and isinstance(v[0], (list, dict)):
+    if how == 5 and isinstance(v, list) and len(v) >= 2 and repr(v[0]) == repr(v[1]) and isinstance(v[0], (list, dict)):
         # the same container object placed twice (aliasing must not show in the rendering)
         stmts.append(A.Declare(V(name + "s"), build_value(v[0], rng, name + "s0", stmts)))
         rest = [build_value(x, rng, name + "r%d" % i, stmts) for i, x in enumerate(v[2:])]
